@@ -22,6 +22,7 @@ RULE = ('E2 (Hypothesis rule-based state machine, history replayable from its st
         'points.intersects(element scalar) equal the same quantities of a FRESH array built from the model by the plain '
         'constructor. Non-trivial: history with >= 2 derivation steps that ends with a live array whose backing offset is '
         'non-zero (arr.data.offset, used for labelling only). distinct = distinct histories.')
+RULE += (' Added after the seeded rounds: histories in which every array builds and is queried through its own spatial index (sindex.intersects, cx).')
 ASSUMPTIONS = ['pyarrow to_pylist decodes stored elements correctly', 'errors expected for invalid requests are those documented in ExtensionArray.take / __getitem__']
 BUDGET = {'quick': {'stateful_shards': 16, 'stateful_examples': 1600, 'steps': 10, 'min_evaluations': 500},
           'thorough': {'stateful_shards': 16, 'stateful_examples': 24000, 'steps': 14, 'min_evaluations': 8000}}
